@@ -1,3 +1,6 @@
+\* C14 quick: exhaustive, every behaviour of <= 9 client-level steps (calls, crashes, reopens) over
+\* heights 1..2, 2 entries, 3 log files, write/fsync faults, cleanup every 2 prune records.
+\* Measured (TLC 2026.09, 4 workers): 71 524 distinct / 160 101 generated states, depth 23, ~20 s.
 CONSTANTS
   MaxH = 2
   MaxEntries = 2
